@@ -212,6 +212,14 @@ def _decompress_body_gzip(data: bytes, *, max_output_size: int | None = None) ->
             if total > max_output_size:
                 raise DecompressionLimitExceeded(f"Decompressed gzip output exceeds max_output_size={max_output_size}")
             chunks.append(chunk)
+        if do.eof:
+            # End of the gzip member: whatever follows is not part of the
+            # stream.  zlib moves it to ``unused_data`` but leaves a stale,
+            # non-empty ``unconsumed_tail`` behind, so without this the loop
+            # condition stayed true forever (each pass returning b"" and
+            # growing ``unused_data``) for any multi-chunk body with so much
+            # as one byte after the trailer.
+            break
         if not chunk and not do.unconsumed_tail:
             break
     tail = do.flush()
